@@ -410,6 +410,42 @@ def r6_undecryptable(run):
                   sorted(repr(a) for a in got), pa.loc(c), nontrivial=False)
 
 
+def r7_encryption_key_lookup(run):
+    run.rule("R7", "the recipient's encryption certificates are found: "
+             "Entity looks them up with use 'encryption', and MetaData.certs "
+             "answers a KeyDescriptor without a use attribute (valid for both "
+             "uses) for every requested use - otherwise _response silently "
+             "switches encryption off")
+    from .. import symbolic
+    from .c03 import key_filter_sites
+    m = run.model
+    fi, sites = key_filter_sites(run)
+    run.floor("R7", "certificate accept sites in MetaData.certs", len(sites), 1)
+    hit = [(l, per[symbolic.ABSENT]) for l, _, per in sites]
+    ok = any(v == "consistent" for _, (v, _) in hit)
+    run.check(ok, "R7", fi.qual + "::no-use=>every-use",
+              "a key descriptor that declares no use is returned whatever use "
+              "is requested",
+              "whether a key descriptor without a use attribute is returned "
+              "depends on the requested use (or it never is): %s" % hit,
+              fi.loc())
+    n = 0
+    for q in ("entity.Entity.has_encrypt_cert_in_metadata",
+              "entity.Entity._encrypt_assertion"):
+        f = m.func(q)
+        for c in calls_named(f.node, "certs"):
+            n += 1
+            a = arg_of(c, 2, "use")
+            run.check(a is not None and isinstance(a, ast.Constant) and
+                      a.value == "encryption", "R7",
+                      f.qual + "::certs(use=encryption)",
+                      "asks for encryption keys",
+                      "asks for %s keys" % (unparse(a) if a is not None
+                                            else "the default (signing)"),
+                      f.loc(c))
+    run.floor("R7", "encryption certificate lookups", n, 2)
+
+
 def check(run):
     run.explanation = (
         "C17: statement-order rule sign-assertion < encrypt < sign-response in "
@@ -417,7 +453,8 @@ def check(run):
         "failure rules of encrypt_assertion/_encrypt_assertion, same-gate rule "
         "for decrypted assertions (plus C01.R5/R6), parity of the "
         "SubjectConfirmationData InResponseTo check for decrypted assertions, "
-        "undecryptable content. Not decided: ciphertext contents, key matching "
+        "undecryptable content, three-case evaluation of the KeyDescriptor use "
+        "filter for the encryption-certificate lookup. Not decided: ciphertext contents, key matching "
         "(xmlsec1).")
     run.assumptions = ["xmlsec1 encrypts the node selected by the xpath",
                        "signed_instance_factory signs the listed nodes"]
@@ -427,3 +464,4 @@ def check(run):
     r4_same_gate(run)
     r5_parity(run)
     r6_undecryptable(run)
+    r7_encryption_key_lookup(run)
